@@ -348,6 +348,19 @@ class P(Prop):
                         tol, i, (xs[i], ys[i]), math.sqrt(d2), kept)
         return None
 
+    # ---------------------------------------------------------------- known-finding classes
+    def classify(self, case, impl_out, msg):
+        """'vw-area-reaches-argmin-sentinel': Visvalingam on a track three fixes of which span a triangle of area >= 1e300
+        (coordinates ~1e150): Operator.ARGMIN's sentinel `minimum = +1e300` is then never undercut, it answers index 0 and the
+        first fix is removed. Excluded by the hypothesis `hbig` of TV.C16.vw_sublist_ends; never produced by the generators."""
+        if case.get("kind") != "vw":
+            return None
+        pts = [(F(x), F(y)) for x, y in zip(case["xs"], case["ys"])]
+        for a, b, c in itertools.combinations(pts, 3):
+            if abs((b[0] - a[0]) * (c[1] - b[1]) - (c[0] - b[0]) * (b[1] - a[1])) / 2 >= F(1e300):
+                return "vw-area-reaches-argmin-sentinel"
+        return None
+
     # ---------------------------------------------------------------- shrinking / search
     def shrink(self, case):
         if case["kind"] not in ("dp", "vw"):
